@@ -1168,11 +1168,14 @@ fn op_fmt(c: &Value) -> R {
     let d = date(field(c, "date"))?;
     let region = req_str(c, "region")?;
     let service = req_str(c, "service")?;
+    // records emitted while the keys are built and rendered are observables too ("log_level", default off; returned as "logs")
+    set_log_level(str_or(c, "log_level", "off")?)?;
+    let _ = drain_logs();
     let ks = match std_secret(secret)? {
         Ok(k) => k,
         Err(p) => return Ok(p),
     };
-    Ok(run_flat(|| {
+    let out = run_flat(|| {
         let mut items: Vec<Value> = Vec::new();
         let mut add = |what: &str, text: String| items.push(json!({"what": what, "text": text}));
         // alternate renderings ({:#?} / {:#}) of the same values: "<what>#"
@@ -1267,7 +1270,16 @@ fn op_fmt(c: &Value) -> R {
         }
         drop(add);
         json!({"items": items})
-    }))
+    });
+    let logs = drain_logs();
+    log::set_max_level(log::LevelFilter::Off);
+    Ok(match out {
+        Value::Object(mut o) => {
+            o.insert("logs".to_string(), logs);
+            Value::Object(o)
+        }
+        other => other,
+    })
 }
 
 // ------------------------------------------------------------------------------------------------
